@@ -174,6 +174,17 @@ def _first_element_extractions(fn_node):
     return out
 
 
+def _record_value_args(prog, R, rec, call):
+    """(value argument, SD argument) of a call of the record routine, by the roles of its parameters (positional fallback)."""
+    from .c12 import record_param_roles
+
+    role = record_param_roles(prog, R)
+    b = bind_args(rec, call)
+    v = b.get(role.get("Y_orig")) if role.get("Y_orig") else (call.args[2] if len(call.args) > 2 else None)
+    s_ = b.get(role.get("S")) if role.get("S") else (call.args[3] if len(call.args) > 3 else None)
+    return v, s_
+
+
 def check(ctx):
     prog = ctx.prog
     R = roles_of(prog)
@@ -238,8 +249,9 @@ def check(ctx):
             ctx.missing(entry, "call of the record routine")
             continue
         rc = rcalls[0]
-        val_var = canon(rc.args[2]) if len(rc.args) > 2 else None
-        sd_var = canon(rc.args[3]) if len(rc.args) > 3 else None
+        val_arg, sd_arg = _record_value_args(prog, R, rec, rc)
+        val_var = canon(val_arg) if val_arg is not None else None
+        sd_var = canon(sd_arg) if sd_arg is not None else None
         found = {"value": None, "sd": None}
         for node, kinds, exc in vts:
             vars_ = {k[1] for k in kinds if k}
@@ -331,15 +343,17 @@ def check(ctx):
     from ..flow import TagFlow
 
     tf = TagFlow(prog, lc, _TargetPolicy(sink, prog, lc))
-    for i, what in ((2, "value"), (3, "SD")):
-        if len(rec_call.args) > i:
-            tg = tf.tags(rec_call.args[i])
+    from .c12 import record_routine as _rr
+
+    for i, what, arg in zip((2, 3), ("value", "SD"), _record_value_args(prog, R, _rr(prog, R)[0], rec_call)):
+        if arg is not None:
+            tg = tf.tags(arg)
             if tg is None:
                 continue
             okv = "T" in tg or (i == 3 and "NONE" in tg)
-            ctx.check(okv, lc, rec_call, f"recorded {what} {canon(rec_call.args[i])} stems from the target's return value",
+            ctx.check(okv, lc, rec_call, f"recorded {what} {canon(arg)} stems from the target's return value",
                       f"the {what} handed to the record routine is not the target's own return value (it was replaced or transformed after the call): invalid values can be masked",
-                      construct=f"recorded {what} <- {canon(rec_call.args[i])} without target provenance")
+                      construct=f"recorded {what} <- {canon(arg)} without target provenance")
 
     # ------------------------------------------------------------------ R6
     ctx.rule("R6", "the target's value is reduced to its first element only when its size is known to be 1", floor=1)
